@@ -6,6 +6,7 @@ import Mathlib.Tactic.Ring
 import Mathlib.Algebra.Order.Field.Rat
 import Mathlib.Data.Rat.Cast.Order
 import Mathlib.Data.List.Perm.Basic
+import Mathlib.Data.Nat.ModEq
 
 namespace Coba.C05
 
@@ -257,6 +258,114 @@ theorem gauss_pair' (g : Gen) (h : g.buf = none) :
   unfold gauss1
   rw [h]
   simp
+
+
+theorem swapAt_length {α} (l : List α) (i j : Nat) : (swapAt l i j).length = l.length := by
+  unfold swapAt; split <;> simp
+
+theorem swapAt_self {α} (l : List α) (i : Nat) : swapAt l i i = l := by
+  unfold swapAt
+  split
+  · rename_i a b h1 h2
+    rw [h1] at h2; cases h2
+    obtain ⟨hlt, rfl⟩ := List.getElem?_eq_some_iff.mp h1
+    simp
+  · rfl
+
+/-- swapping inside the suffix of `pre ++ rest` -/
+theorem swapAt_append {α} (pre rest : List α) (a b : Nat) :
+    swapAt (pre ++ rest) (pre.length + a) (pre.length + b) = pre ++ swapAt rest a b := by
+  unfold swapAt
+  simp only [List.getElem?_append_right (Nat.le_add_right _ _), Nat.add_sub_cancel_left]
+  split
+  · rename_i x y hx hy
+    simp [hx, hy, List.set_append_right _ _ (Nat.le_add_right _ _)]
+  · rfl
+
+
+theorem swapAt_head_zero {α} (x : α) (xs : List α) : swapAt (x :: xs) 0 0 = x :: xs := swapAt_self _ 0
+
+theorem swapAt_head_succ_some {α} (x z : α) (xs : List α) (j : Nat) (h : xs[j]? = some z) :
+    swapAt (x :: xs) 0 (j+1) = z :: xs.set j x := by
+  unfold swapAt
+  simp [h]
+
+theorem swapAt_head_succ_none {α} (x : α) (xs : List α) (j : Nat) (h : xs[j]? = none) :
+    swapAt (x :: xs) 0 (j+1) = x :: xs := by
+  unfold swapAt
+  simp [h]
+
+theorem loopGo_eq {α} (s : Nat) (rest : List α) :
+    ∀ pre : List α, shuffleLoopGo s (pre ++ rest) pre.length (rest.length - 1)
+      = ((shuffle s rest).1, pre ++ (shuffle s rest).2) := by
+  fun_induction shuffle s rest with
+  | case1 s => intro pre; simp [shuffleLoopGo]
+  | case2 s x => intro pre; simp [shuffleLoopGo]
+  | case3 s x y r xs j hj s' t heq ih =>
+    intro pre
+    have hk : (x :: y :: r).length - 1 = (xs.length - 1) + 1 := by simp [xs]
+    rw [hk, shuffleLoopGo]
+    have hlen : (pre ++ x :: y :: r).length - pre.length = xs.length + 1 := by simp [xs]
+    simp only [hlen]
+    have hj0 : scaled s (xs.length + 1) = 0 := hj
+    rw [hj0, Nat.add_zero]
+    have hsw : swapAt (pre ++ x :: y :: r) pre.length pre.length = pre ++ x :: y :: r := swapAt_self _ _
+    rw [hsw]
+    have := ih (pre ++ [x])
+    simp only [List.append_assoc, List.singleton_append, List.length_append, List.length_singleton] at this
+    rw [this, heq]
+  | case4 s x y r xs j j' hj z hz s' t heq ih =>
+    intro pre
+    have hk : (x :: y :: r).length - 1 = ((xs.set j' x).length - 1) + 1 := by simp [xs]
+    rw [hk, shuffleLoopGo]
+    have hlen : (pre ++ x :: y :: r).length - pre.length = xs.length + 1 := by simp [xs]
+    simp only [hlen]
+    have hj1 : scaled s (xs.length + 1) = j' + 1 := hj
+    rw [hj1]
+    have hsw : swapAt (pre ++ x :: y :: r) (pre.length + 0) (pre.length + (j'+1)) = pre ++ swapAt (x :: xs) 0 (j'+1) :=
+      swapAt_append pre (x :: xs) 0 (j'+1)
+    rw [Nat.add_zero] at hsw
+    rw [hsw, swapAt_head_succ_some x z xs j' hz]
+    have := ih (pre ++ [z])
+    simp only [List.append_assoc, List.singleton_append, List.length_append, List.length_singleton] at this
+    rw [this, heq]
+  | case5 s x y r xs j j' hj hz s' t heq ih =>
+    intro pre
+    have hk : (x :: y :: r).length - 1 = (xs.length - 1) + 1 := by simp [xs]
+    rw [hk, shuffleLoopGo]
+    have hlen : (pre ++ x :: y :: r).length - pre.length = xs.length + 1 := by simp [xs]
+    simp only [hlen]
+    have hj1 : scaled s (xs.length + 1) = j' + 1 := hj
+    rw [hj1]
+    have hsw : swapAt (pre ++ x :: y :: r) (pre.length + 0) (pre.length + (j'+1)) = pre ++ swapAt (x :: xs) 0 (j'+1) :=
+      swapAt_append pre (x :: xs) 0 (j'+1)
+    rw [Nat.add_zero] at hsw
+    rw [hsw, swapAt_head_succ_none x xs j' hz]
+    have := ih (pre ++ [x])
+    simp only [List.append_assoc, List.singleton_append, List.length_append, List.length_singleton] at this
+    rw [this, heq]
+
+/-- the loop of `CobaRandom.shuffle` as written in Python (index arithmetic + swaps) computes
+exactly the recursive model the other theorems are about -/
+theorem shuffleLoop_eq_shuffle' {α} (s : Nat) (l : List α) : shuffleLoop s l = shuffle s l := by
+  have := loopGo_eq s l []
+  simpa [shuffleLoop] using this
+
+
+theorem A_coprime_M : Nat.Coprime M A := by decide
+
+/-- the LCG step is injective on states: two different states never merge, so every state has
+exactly one predecessor (in particular exactly one state is followed by the zero uniform) -/
+theorem next_injective' (s t : Nat) (hs : s < M) (ht : t < M) (h : next s = next t) : s = t := by
+  unfold next at h
+  have h1 : (A * s + C) ≡ (A * t + C) [MOD M] := h
+  have h2 : A * s ≡ A * t [MOD M] := Nat.ModEq.add_right_cancel' C h1
+  have h3 : s ≡ t [MOD M] := Nat.ModEq.cancel_left_of_coprime A_coprime_M h2
+  exact Nat.ModEq.eq_of_lt_of_lt h3 hs ht
+
+/-- the k-th state of the stream of an integer seed is the k-fold iterate of `next` -/
+theorem zero_uniform_unique' (s t : Nat) (hs : s < M) (ht : t < M) (h1 : unum s = 0) (h2 : unum t = 0) : s = t :=
+  next_injective' s t hs ht (by unfold unum at h1 h2; rw [h1, h2])
 
 
 end Coba.C05
